@@ -868,8 +868,8 @@ static void run_dc(void)
  * and lets the default action kill the process, so the caller observes the signal as the exit status).
  *   XP 1 <next> <ncons> <per>   free-running, real pool: <next> pthreads enqueue <per> items each, <ncons> worker tasks dequeue;
  *                               C-side conservation oracle.   -> "XP1 | total .. delivered .. lost .. dup .. order_bad .. | hzlen .. | verdict .."
- *   XP 2 <nitems>               the controller enqueues <nitems>, then ONE pthread calls qlfqueue_dequeue once.
- *                               -> "XP2 | dequeued <v> | hzlen <n> | verdict OK"   (or XP SIGNAL)
+ *   XP 2 <nitems> [<ndeq>]      the controller enqueues 1..<nitems>, then ONE pthread calls qlfqueue_dequeue <ndeq> (default 1) times.
+ *                               -> "XP2 | dequeued <first v> | got .. of .. attempts, out of order .. | hzlen <n> | verdict OK"   (or XP SIGNAL)
  *   XP 3 <hi> <nreg>            baton + fixed arena, needs >= 2 shepherds.  <nreg> extra pthreads only register a (zero) slot array.
  *        prefill 1..fmax by the controller; worker task W (shepherd 1) dequeues fmax-1; external pthread E starts a dequeue and is
  *        parked before its CAS on q->head (slots: X = head, Y = next); W dequeues once more (fmax-th retire: hazardous_scan), then
@@ -951,9 +951,20 @@ static void run_xp1(int next, int ncons, unsigned long per)
 
 /* ---- XP 2 */
 static void *volatile xp2_res;
-static void *xp2_thread(void *arg) { xp_is_ext = 1; xp2_res = qlfqueue_dequeue(lfq); return NULL; }
-static void run_xp2(unsigned long nitems)
+static unsigned long xp2_ndeq = 1, xp2_got = 0, xp2_bad = 0;
+static void *xp2_thread(void *arg)
 {
+    xp_is_ext = 1;
+    for (unsigned long i = 0; i < xp2_ndeq; i++) {      /* FIFO check: the k-th successful dequeue must return k */
+        void *p = qlfqueue_dequeue(lfq);
+        if (i == 0) xp2_res = p;
+        if (p) { xp2_got++; if ((unsigned long)(uintptr_t)p != xp2_got) xp2_bad++; }
+    }
+    return NULL;
+}
+static void run_xp2(unsigned long nitems, unsigned long ndeq)
+{
+    xp2_ndeq = ndeq ? ndeq : 1;
     pthread_t th;
     lfq = qlfqueue_create();
     for (unsigned long v = 1; v <= nitems; v++) qlfqueue_enqueue(lfq, (void *)(uintptr_t)v);
@@ -962,7 +973,8 @@ static void run_xp2(unsigned long nitems)
     pthread_create(&th, NULL, xp2_thread, NULL);
     pthread_join(th, NULL);
     alarm(0);
-    XPRINT("XP2 | dequeued %lu | hzlen %lu | verdict OK\n", (unsigned long)(uintptr_t)xp2_res, (unsigned long)hzptr_list_len);
+    XPRINT("XP2 | dequeued %lu | got %lu of %lu attempts, out of order %lu | hzlen %lu | verdict %s\n", (unsigned long)(uintptr_t)xp2_res, xp2_got,
+           xp2_ndeq, xp2_bad, (unsigned long)hzptr_list_len, (xp2_bad || xp2_got != (xp2_ndeq < nitems ? xp2_ndeq : nitems)) ? "VIOLATED" : "OK");
 }
 
 /* ---- XP 3 */
@@ -1053,7 +1065,7 @@ static void run_xp(char *line)
     sscanf(line + 2, "%d %lu %lu %lu", &sc, &a, &b, &c);
     xp_signals();
     if (sc == 1) run_xp1((int)a, (int)b, c);
-    else if (sc == 2) run_xp2(a);
+    else if (sc == 2) run_xp2(a, b);
     else if (sc == 3) run_xp3((int)a, (int)b);
     else XPRINT("XP ERR\n");
     fflush(stdout);
